@@ -458,7 +458,7 @@ pub fn gen_wstep(rng: &mut Rng, nodes: u64, weights: &[u32; 9]) -> WStep {
     let dn = if rng.chance(0.7) { 2 } else { 5 };
     let d = rng.below(dn) as u8;
     match kind {
-        0 => WStep::CfgSet { node, t, g, d, size: *rng.pick(&[0u32, 1, 10, 40, 200, 5000]), same: rng.chance(0.15), typ: rng.below(4) as u8, desc: rng.below(3) as u8 },
+        0 => WStep::CfgSet { node, t, g, d, size: *rng.pick(&[0u32, 1, 10, 40, 200, 5000]), same: rng.chance(0.15), typ: rng.below(5) as u8, desc: rng.below(4) as u8 },
         1 => WStep::CfgDel { node, t, g, d },
         2 => WStep::NsSet { node, id: rng.below(4) as u8, name: rng.below(5) as u8 },
         3 => WStep::NsDel { node, id: rng.below(4) as u8 },
